@@ -79,7 +79,10 @@ def runH : Handler := fun j => do
       ("trailing", jList jTok (trailing.filter fun t => t != .idx)),
       ("wf", Json.mkObj [("dupAdjacent", Json.bool (dupAdjacent p)), ("sharedOneSided", Json.bool (sharedOneSided p)),
                          ("oneWriterStage", Json.bool (oneWriterStage p)), ("tilesAligned", Json.bool (tilesAligned p)),
-                         ("safe", Json.bool (safeB p))])])]
+                         ("safe", Json.bool (safeB p)), ("dupWF", Json.bool (dupWF p)),
+                         ("inputOK", Json.bool (match construct l with
+                            | .ok (some q) => inputOK tiles q.stages && inputNoDup q.stages
+                            | _ => false))])])]
 
 /-- args: {"S": n, "N": n} -> {"unrolled": [[[k, n]]], "slots": [[[k, n]]]} (evaluated slot structure) -/
 def slotsH : Handler := fun j => do
